@@ -224,6 +224,8 @@ class Ctx:
         self.branch_checks = 0
         self.env_stack = []
         self.assuming = 0
+        self.in_quantifier = 0
+        self.side_conds = []
         self.contract_stack = []
 
     # ------------------------------------------------------------------ solver plumbing
